@@ -155,8 +155,10 @@ def check(run: Run) -> None:
     run.check(ok, "C08.R1", fi, fi.node, "dict key is matched by value equality with the attribute name", "dict-literal attribute does not select the key equal to the attribute name")
 
     # the type of a processed call is recorded for the node handed back *and* for the node it replaces
+    from ..lib import final_delegate
+
     for name in ("process_method_call", "process_function_call", "process_parameterized_method_call"):
-        fi = need(name)
+        fi = final_delegate(m, need(name))
         fa, st = stores(fi)
         nodep = ("param", fi.pos_params[1])
         ret_terms = set()
